@@ -5,9 +5,11 @@
 //! per message: every single-bit flip of the 10 header bytes, truncation to every length, slice and
 //! reader under every chunking (all compositions for short messages); all ordered schema pairs.
 
-use crate::envs::ChunkedBufRead;
+use crate::envs::{sink_menu, ChunkedBufRead, ScheduledSink, SinkAnswer};
 use crate::explore::{explore, hash64, Chooser, Cover};
 use crate::gen::{self, ObsMode, RecordStyle, UnionStyle};
+use crate::pres::Pres;
+use std::cell::{Cell, RefCell};
 use crate::obs::{Hint, ObsSeed, O};
 use crate::report::{hex, Report, Violation};
 use crate::subj::{guarded, Out};
@@ -253,6 +255,107 @@ fn header_chunkings(len: usize) -> Vec<(Vec<usize>, usize)> {
 	out
 }
 
+
+// ---------------------------------------------------------------------------------------------
+// Serialization through a sink that is free to accept fewer bytes than offered
+
+/// One serialization of `p` through a `ScheduledSink` whose answers come from `decide`; checks
+/// "sink bytes == expected whenever no hard fault was injected, Err whenever one was".
+/// Returns (a short write or interrupt happened, a short write landed inside the 10-byte header).
+fn sink_run(schema: &Schema, p: &Pres, expected: &[u8], mut decide: impl FnMut(usize, &[usize]) -> SinkAnswer, schedule: &dyn Fn() -> String, viol: &mut dyn FnMut(&str, String, Option<usize>)) -> (bool, bool) {
+	let accepted = Cell::new(0usize);
+	let header_short = Cell::new(false);
+	let (sink, st) = ScheduledSink::with(|call, lens| {
+		let a = decide(call, lens);
+		let total: usize = lens.iter().sum();
+		let k = match a {
+			SinkAnswer::All => total,
+			SinkAnswer::Accept(k) => k.clamp(1, total),
+			_ => 0,
+		};
+		if matches!(a, SinkAnswer::All | SinkAnswer::Accept(_)) && accepted.get() < 10 && k < total {
+			header_short.set(true);
+		}
+		accepted.set(accepted.get() + k);
+		a
+	});
+	let mut config = SerializerConfig::new(schema);
+	let r = guarded(|| serde_avro_fast::to_single_object(p, sink, &mut config).map(|_| ()).map_err(|e| e.to_string()));
+	let st = st.borrow();
+	let disturbed = st.short_writes > 0 || st.interrupts > 0 || st.hard_fault_at.is_some();
+	match (&r, st.hard_fault_at) {
+		(Out::Panic(m), _) => viol("sink-panic", format!("to_single_object into a sink ({}) panicked: {m}", schedule()), None),
+		(Out::Ok(()), Some(call)) => viol("sink-fault-swallowed", format!("to_single_object into a sink ({}) returned Ok although write call {call} failed hard (error / Ok(0)); sink holds [{}]", schedule(), hex(&st.bytes)), None),
+		(Out::Err(_), Some(_)) => {}
+		(Out::Err(e), None) => viol("sink-err-without-fault", format!("to_single_object into a sink ({}) returned Err({e}) although every write call eventually accepted bytes", schedule()), None),
+		(Out::Ok(()), None) => {
+			if st.bytes != expected {
+				viol(
+					"sink-bytes-differ",
+					format!("to_single_object into a sink ({}) returned Ok, the sink received [{}], into a Vec the same call gives [{}]", schedule(), hex(&st.bytes), hex(expected)),
+					None,
+				);
+			}
+		}
+	}
+	(disturbed, header_short.get())
+}
+
+/// Every regular "at most k bytes per call" schedule, k = 1..=12, then every schedule with at most
+/// two deviations from "accept everything" (short writes from `sink_menu`, Interrupted, hard error, Ok(0)).
+fn sink_part(a: usize, schema: &Schema, p: &Pres, expected: &[u8], t: &Tier, cover: &mut Cover, viol: &mut dyn FnMut(&str, String, Option<usize>)) {
+	for k in 1..=12usize {
+		cover.impl_runs += 1;
+		let (disturbed, hdr) = sink_run(schema, p, expected, |_, _| SinkAnswer::Accept(k), &|| format!("every write/write_vectored call accepts at most {k} bytes"), viol);
+		if disturbed {
+			cover.nontrivial.insert(hash64(&(a, "sink-regular", k, expected)));
+			cover.count("sink_regular_schedule_with_short_writes", 1);
+		}
+		if hdr {
+			cover.count("sink_short_write_inside_header", 1);
+		}
+	}
+	let st = explore(Some(2), t.sink_leaf_cap, |ch| {
+		let cell = RefCell::new(ch);
+		let log: RefCell<Vec<String>> = RefCell::new(Vec::new());
+		cover.impl_runs += 1;
+		let (disturbed, hdr) = sink_run(
+			schema,
+			p,
+			expected,
+			|call, lens| {
+				let menu = sink_menu(lens, true);
+				let i = cell.borrow_mut().dev(menu.len());
+				if i != 0 {
+					log.borrow_mut().push(format!("call {call} offering {lens:?} bytes answered {:?}", menu[i]));
+				}
+				menu[i]
+			},
+			&|| format!("accepts everything except: {}", log.borrow().join("; ")),
+			viol,
+		);
+		let choices = cell.borrow().choices();
+		if disturbed {
+			cover.nontrivial.insert(hash64(&(a, "sink-dev", &choices, expected)));
+		}
+		let log = log.borrow();
+		if log.iter().any(|l| l.contains("HardError") || l.contains("Zero")) {
+			cover.count("sink_hard_fault_injected", 1);
+		} else if !log.is_empty() {
+			cover.count("sink_deviating_schedule_without_fault", 1);
+		}
+		if log.iter().any(|l| l.contains("Interrupted")) {
+			cover.count("sink_interrupted", 1);
+		}
+		if hdr {
+			cover.count("sink_short_write_inside_header", 1);
+		}
+		true
+	});
+	cover.add_tree(&st, &format!("schema {a}: sink schedules with <= 2 deviations"));
+}
+
+
 // ---------------------------------------------------------------------------------------------
 // One leaf: (schema A, value) with every damage, and against every other schema B
 
@@ -265,13 +368,17 @@ pub struct Tier {
 	/// level of the shared schema alphabet added to the hand-made set
 	pub level: usize,
 	pub n_base: usize,
+	/// (schema, value) leaves per schema that are also serialized through scheduled sinks
+	pub sink_values: u64,
+	/// leaf cap of one deviation-bounded sink exploration
+	pub sink_leaf_cap: u64,
 }
 
 pub fn tier(thorough: bool) -> Tier {
 	if thorough {
-		Tier { thorough, max_leaves: 20000, pair_values: 256, compositions_up_to: 13, max_items: 3, level: 2, n_base: n_base() }
+		Tier { thorough, max_leaves: 20000, pair_values: 256, compositions_up_to: 13, max_items: 3, level: 2, n_base: n_base(), sink_values: 24, sink_leaf_cap: 50_000 }
 	} else {
-		Tier { thorough, max_leaves: 20000, pair_values: 32, compositions_up_to: 12, max_items: 2, level: 1, n_base: n_base() }
+		Tier { thorough, max_leaves: 20000, pair_values: 32, compositions_up_to: 12, max_items: 2, level: 1, n_base: n_base(), sink_values: 4, sink_leaf_cap: 5_000 }
 	}
 }
 
@@ -476,6 +583,15 @@ pub fn run_leaf(us: &[Unit], a: usize, ch: &mut Chooser, leaf_no: u64, t: &Tier,
 			}
 		}
 	}
+	// (6) the same serialization through sinks that accept fewer bytes than offered / fail
+	if leaf_no < t.sink_values {
+		let p = gen::pres_of(&v, &u.ast, &env, UnionStyle::ByTypeWhereUnambiguous, RecordStyle::Struct);
+		let mut config = SerializerConfig::new(schema);
+		cover.impl_runs += 1;
+		if let Out::Ok(vec_out) = guarded(|| serde_avro_fast::to_single_object_vec(&p, &mut config).map_err(|e| e.to_string())) {
+			sink_part(a, schema, &p, &vec_out, t, cover, &mut viol);
+		}
+	}
 	cover.evaluations += 1;
 	cover.nontrivial.insert(hash64(&(a, "whole", &msg)));
 	cover.outcomes.insert(hash64(&msg));
@@ -512,7 +628,7 @@ pub fn run(rep: &mut Report) {
 	let distinct_pcf: std::collections::HashSet<&str> = us.iter().map(|u| u.pcf.as_str()).collect();
 	let same_pcf_pairs = us.iter().enumerate().map(|(i, a)| us.iter().enumerate().take(t.n_base).filter(|(j, b)| *j != i && b.pcf == a.pcf).count()).sum::<usize>();
 	rep.rule = format!(
-		"SAE: {} hand-made ASTs plus the {} schemas of the shared alphabet Σ_S level {} ({} distinct canonical forms; the hand-made set incl. pairs differing only in a record/enum/fixed name, namespace, field name or symbol, and {} ordered pairs with the same canonical form but another logical type), each in up to 4 spellings of the same canonical form (attribute order, extra attributes, whitespace, name/namespace forms; used only if the crate gives them the canonical fingerprint), x every value of gen::gen_value (full boundary alphabet, collections <= {} items, leaf cap {} per schema). Per (schema, value): to_single_object_vec = c3 01 ‖ fingerprint_le(pcf(AST)) ‖ datum that the reference decodes to the value; message (built by the model) decoded from the slice and from a ChunkedBufRead under {} returns the expected observation; each of the 10 header bytes x 8 bit flips => Err (slice + {} chunkings incl. a cut at every header position); truncation to every length: < 10 => Err, otherwise slice ≡ reader (Ok/Err + observation); for the first {} values per schema A, every B of the hand-made set: PCF differs => Err on slice / whole / 1-byte reader, PCF equal => same result as from_datum_* of the bare datum under B. Error messages never compared. Non-trivial: every (schema, input bytes, decoding schema) case — whole message, one flipped header bit, one truncation, one foreign/equivalent schema; distinct on exactly that triple.",
+		"SAE: {} hand-made ASTs plus the {} schemas of the shared alphabet Σ_S level {} ({} distinct canonical forms; the hand-made set incl. pairs differing only in a record/enum/fixed name, namespace, field name or symbol, and {} ordered pairs with the same canonical form but another logical type), each in up to 4 spellings of the same canonical form (attribute order, extra attributes, whitespace, name/namespace forms; used only if the crate gives them the canonical fingerprint), x every value of gen::gen_value (full boundary alphabet, collections <= {} items, leaf cap {} per schema). Per (schema, value): to_single_object_vec = c3 01 ‖ fingerprint_le(pcf(AST)) ‖ datum that the reference decodes to the value; message (built by the model) decoded from the slice and from a ChunkedBufRead under {} returns the expected observation; each of the 10 header bytes x 8 bit flips => Err (slice + {} chunkings incl. a cut at every header position); truncation to every length: < 10 => Err, otherwise slice ≡ reader (Ok/Err + observation); for the first {} values per schema A, every B of the hand-made set: PCF differs => Err on slice / whole / 1-byte reader, PCF equal => same result as from_datum_* of the bare datum under B. For the first {} values per schema the message is also written with to_single_object into an envs::ScheduledSink: every regular schedule 'at most k bytes per write call' k = 1..=12, then every schedule with <= 2 deviations from accept-everything (short writes of envs::sink_menu, Interrupted, hard error, Ok(0); ENV, leaf cap {} per value): without a hard fault the call is Ok and the sink holds exactly the bytes the Vec variant produces, with a hard fault the call is Err. Error messages never compared. Non-trivial: every (schema, input bytes, decoding schema) case — whole message, one flipped header bit, one truncation, one foreign/equivalent schema; distinct on exactly that triple.",
 		t.n_base,
 		us.len() - t.n_base,
 		t.level,
@@ -522,7 +638,9 @@ pub fn run(rep: &mut Report) {
 		t.max_leaves,
 		format!("every composition into chunks for messages <= {} bytes, else whole / uniform 1..12 / one cut at each of the first 11 positions", t.compositions_up_to),
 		"13",
-		t.pair_values
+		t.pair_values,
+		t.sink_values,
+		t.sink_leaf_cap
 	);
 	rep.assumptions.push("vmodel::schema::pcf + bit-serial CRC-64-AVRO give the fingerprint the specification prescribes; vmodel::value::encode gives a valid datum encoding".into());
 	let results: Vec<(Cover, Vec<Violation>)> = (0..us.len()).into_par_iter().map(|a| run_unit(&us, a, &t)).collect();
@@ -546,6 +664,11 @@ pub fn run(rep: &mut Report) {
 		"foreign_schema_rejected",
 		"foreign_schema_rejected_though_datum_decodes",
 		"same_pcf_other_logical_type_decoded",
+		"sink_regular_schedule_with_short_writes",
+		"sink_short_write_inside_header",
+		"sink_hard_fault_injected",
+		"sink_interrupted",
+		"sink_deviating_schedule_without_fault",
 	];
 	if rep.violations.is_empty() {
 		for k in need {
